@@ -1,20 +1,43 @@
 #!/bin/sh
-# usage: tools/seedtest.sh <Cxx> <patch.diff> [tier]
+# usage: tools/seedtest.sh <Cxx> <seeded/dir | patch.diff> [tier]
 # Applies a seeded breaking change to a scratch worktree of /repo HEAD, runs ./check Cxx against it
-# (VERIF_REPO), prints the verdict lines, removes the worktree and the alt build output.
+# (VERIF_REPO), prints the verdict, stores the replay under build/seedreplays/<seed>.json, records the
+# outcome in <dir>/meta.json ("check_result"), removes the worktree and the alt build output.
 set -u
-PID=$1; PATCH=$(realpath "$2"); TIER=${3:-quick}
+PID=$1; SRC=$2; TIER=${3:-quick}
+if [ -d "$SRC" ]; then SD=$(realpath "$SRC"); PATCH=$SD/patch.diff; NAME=$(basename "$SD"); else SD=""; PATCH=$(realpath "$SRC"); NAME=$PID-adhoc; fi
 WT=/tmp/seedrun-$PID-$$
 git -C /repo worktree add -q --detach "$WT" HEAD || exit 2
 if ! git -C "$WT" apply "$PATCH"; then echo "PATCH DOES NOT APPLY"; git -C /repo worktree remove --force "$WT"; exit 2; fi
 cd "$(dirname "$0")/.."
-VERIF_REPO="$WT" ./check "$PID" --tier "$TIER" > "/tmp/seedrun-$PID-$$.log" 2>&1
+LOG=/tmp/seedrun-$PID-$$.log
+VERIF_REPO="$WT" ./check "$PID" --tier "$TIER" > "$LOG" 2>&1
 RC=$?
-grep -E '^(VIOLATION|KNOWN-FINDING|\[check)|BROKEN' "/tmp/seedrun-$PID-$$.log" | cut -c1-400 | head -20
+grep -E '^(VIOLATION|KNOWN-FINDING|\[check)' "$LOG" | cut -c1-300 | head -12
+grep -c 'BROKEN' "$LOG" | sed 's/^/broken lines: /'
 TAG=alt-$(python3 -c "import hashlib,os,sys;print(hashlib.sha1(os.path.realpath(sys.argv[1]).encode()).hexdigest()[:8])" "$WT")
-if [ -f "build/$TAG/replays/"*.json ] 2>/dev/null; then mkdir -p build/seedreplays; cp build/$TAG/replays/*.json build/seedreplays/ 2>/dev/null; fi
+mkdir -p build/seedreplays
+REP=$(ls build/$TAG/replays/*.json 2>/dev/null | head -1)
+[ -n "$REP" ] && cp "$REP" "build/seedreplays/$NAME.json"
+if [ -n "$SD" ]; then python3 - "$SD/meta.json" "$RC" "$LOG" "build/seedreplays/$NAME.json" "$TIER" <<'PY'
+import json,sys,re,os
+mp,rc,log,rep,tier=sys.argv[1:6]
+m=json.load(open(mp)); out=open(log).read()
+vl=[l for l in out.splitlines() if l.startswith('VIOLATION')]
+res={"tier":tier,"exit":int(rc),"violation_line":re.sub(r'replay=\S+','replay=<file>',vl[0]) if vl else None,
+     "no_failing_input_found": bool(vl and vl[0].rstrip().endswith('no-failing-input-found')),
+     "repo_head": os.popen('git -C /repo rev-parse --short HEAD').read().strip()}
+if os.path.exists(rep):
+    r=json.load(open(rep)); res["failing_inputs"]=[{"key":v.get("key"),"what":str(v.get("what"))[:200],"input":str(v.get("input"))[:300]} for v in r.get("violations",[])[:3]]
+    res["broken_obligations"]=[b[:200] for b in r.get("broken_obligations",[])[:3]]
+m["check_result"]=res
+m["detected_by"]=("./check %s (%s): " % (m["property"],tier)) + ("NOT DETECTED" if int(rc)==0 else ("VIOLATION no-failing-input-found" if res["no_failing_input_found"] else "VIOLATION with failing input " + ", ".join(sorted({v["key"] for v in res.get("failing_inputs",[])}))))
+json.dump(m,open(mp,'w'),indent=1)
+print(m["detected_by"])
+PY
+fi
 rm -rf "build/$TAG" "build/bin/$TAG"
 git -C /repo worktree remove --force "$WT"
-rm -f "/tmp/seedrun-$PID-$$.log"
-echo "seedtest $PID rc=$RC"
+rm -f "$LOG"
+echo "seedtest $NAME rc=$RC"
 exit $RC
